@@ -601,4 +601,64 @@ example : ParityEnv { frames := #[{ parent := none, defs := [("=", .builtin .num
    ⟨⟨by decide, rfl⟩, ⟨by decide, rfl⟩, ⟨by decide, rfl⟩, ⟨by decide, rfl⟩, ⟨by decide, rfl⟩⟩,
    ⟨⟨by decide, rfl⟩, ⟨by decide, rfl⟩, ⟨by decide, rfl⟩, ⟨by decide, rfl⟩, ⟨by decide, rfl⟩, ⟨by decide, rfl⟩⟩⟩
 
+/-! ## further non-vacuity examples -/
+
+section Examples
+
+/-- `(lambda () ((lambda () 1)))` applied in the loop: its pending tail call continues the same loop
+at the same depth -/
+example : ∃ σ₃ : Store, σ₃.depth = ({} : Store).depth ∧
+    ∀ r σ', Applies {} (.closure (.mk ⟨[], none⟩ [] [.call (.lambda (.mk ⟨[], none⟩ [] [.prim (.int 1) none]) none) [] none]) 0) [] 0 r σ' ↔
+      Applies σ₃ (.closure (.mk ⟨[], none⟩ [] [.prim (.int 1) none]) 0) [] 0 r σ' :=
+  have h := trampoline_no_nesting (σ := {}) (env := 0) (args := [])
+    (lam := .mk ⟨[], none⟩ [] [.call (.lambda (.mk ⟨[], none⟩ [] [.prim (.int 1) none]) none) [] none]) (cenv := 0)
+    rfl (AppliesScheme.intro_ok rfl EvalsDefs.nil (EvalsBody.last EvalsTail.call)) Evals.lambda EvalsArgs.nil rfl
+  ⟨_, h.1, h.2.1⟩
+
+/-- `(apply car '((1)))` reaches `car` at the depth it started with -/
+example : ∀ σ : Store, Reaches 0 σ (.builtin .apply) [.builtin .car, .pair (.pair (.num (.int 1)) .nil) .nil] σ
+    (.builtin .car) [.pair (.num (.int 1)) .nil] := fun _ => .apply (by simp) rfl .refl
+
+/-- a million iterations of each loop shape, from the top-level environments -/
+example : ∃ σ', AppliesProc { frames := #[{ parent := none, defs := [("=", .builtin .numEq), ("-", .builtin .sub),
+      ("even?", .closure (parityLam true "odd?") 0), ("odd?", .closure (parityLam false "even?") 0)] }] }
+    (.closure (parityLam true "odd?") 0) [.num (.int (1000000 : Nat))] 0 (.ok (.bool ((1000000 : Nat) % 2 == 0))) σ' ∧
+    σ'.depth = 0 ∧ σ'.maxDepth ≤ 2 :=
+  loop_depth_bounded_mutual 0 ⟨⟨by decide, rfl⟩, ⟨by decide, rfl⟩, ⟨by decide, rfl⟩, ⟨by decide, rfl⟩⟩ 1000000 (by decide)
+
+example : ∃ σ', AppliesProc { frames := #[{ parent := none, defs := [("=", .builtin .numEq), ("-", .builtin .sub),
+      ("+", .builtin .add)] }] }
+    (.closure hoLam 0) [.closure hoLam 0, .num (.int (1000000 : Nat)), .num (.int 0)] 0
+    (.ok (.num (.int (1000000 : Nat)))) σ' ∧ σ'.depth = 0 ∧ σ'.maxDepth ≤ 2 :=
+  loop_depth_bounded_higher_order 0 ⟨⟨by decide, rfl⟩, ⟨by decide, rfl⟩, ⟨by decide, rfl⟩⟩ 1000000 (by decide)
+
+example : ∃ σ', AppliesProc { frames := #[{ parent := none, defs := [("=", .builtin .numEq), ("-", .builtin .sub),
+      ("+", .builtin .add), ("car", .builtin .car), ("loop", .closure varLam 0)] }] }
+    (.closure varLam 0) [.num (.int (1000000 : Nat)), .num (.int 0)] 0
+    (.ok (.num (.int (1000000 : Nat)))) σ' ∧ σ'.depth = 0 ∧ σ'.maxDepth ≤ 2 :=
+  loop_depth_bounded_variadic 0
+    ⟨⟨by decide, rfl⟩, ⟨by decide, rfl⟩, ⟨by decide, rfl⟩, ⟨by decide, rfl⟩, ⟨by decide, rfl⟩⟩ 1000000 (by decide)
+
+example : ∃ σ', AppliesProc { frames := #[{ parent := none, defs := [("=", .builtin .numEq), ("-", .builtin .sub),
+      ("+", .builtin .add), ("cons", .builtin .cons), ("apply", .builtin .apply), ("loop", .closure appLam 0)] }] }
+    (.closure appLam 0) [.num (.int (1000000 : Nat)), .num (.int 0)] 0
+    (.ok (.num (.int (1000000 : Nat)))) σ' ∧ σ'.depth = 0 ∧ σ'.maxDepth ≤ 2 :=
+  loop_depth_bounded_apply 0
+    ⟨⟨by decide, rfl⟩, ⟨by decide, rfl⟩, ⟨by decide, rfl⟩, ⟨by decide, rfl⟩, ⟨by decide, rfl⟩, ⟨by decide, rfl⟩⟩
+    1000000 (by decide)
+
+/-- the counting loop with its recursive call wrapped as `((lambda () ((lambda (k) □) 7)))` -/
+example : ∃ σ', AppliesProc { frames := #[{ parent := none, defs := [("=", .builtin .numEq), ("-", .builtin .sub),
+      ("+", .builtin .add), ("loop", .closure (ctxLam (.call (.lambda (.mk ⟨[], none⟩ [] ([] ++
+        [.call (.lambda (.mk ⟨["k"], none⟩ [] ([] ++ [recCall])) none) [.prim (.int 7) none] none])) none) [] none)) 0)] }] }
+    (.closure (ctxLam (.call (.lambda (.mk ⟨[], none⟩ [] ([] ++
+        [.call (.lambda (.mk ⟨["k"], none⟩ [] ([] ++ [recCall])) none) [.prim (.int 7) none] none])) none) [] none)) 0)
+    [.num (.int (1000000 : Nat)), .num (.int 0)] 0 (.ok (.num (.int (1000000 : Nat)))) σ' ∧
+    σ'.depth = 0 ∧ σ'.maxDepth ≤ 2 :=
+  loop_depth_bounded_in_context 0 _
+    (goodContext_thunk 0 _ 0 (goodContext_let 0 _ 0 "k" 7 (by decide) (goodContext_here 0 _ 0)))
+    ⟨by decide, rfl⟩ ⟨by decide, rfl⟩ ⟨by decide, rfl⟩ ⟨by decide, rfl⟩ 1000000 (by decide)
+
+end Examples
+
 end Ruschm.C02
